@@ -148,6 +148,18 @@ class Ctx:
             if c not in t["notes"]:
                 t["notes"].append(c)
 
+    # ---- determinism gate ------------------------------------------------------------
+    def determinism(self, what: str, fn: Callable[[Any], Any], cases: Iterable) -> None:
+        """Replays each case twice from a fresh state and demands identical observations; a divergence means the
+        explorer does not own all nondeterminism: a broken check, never a VIOLATION."""
+        n = 0
+        for c in cases:
+            a, b = fn(c), fn(c)
+            if a != b:
+                raise CheckBroken(f"determinism gate failed for {what}: case {c!r} gave two different observations")
+            n += 1
+        self.extra.setdefault("determinism_replays", {})[what] = n
+
     # ---- vacuity guards ------------------------------------------------------------
     def require(self, counter: str, minimum: int = 1) -> None:
         self.guards.append((counter, minimum))
